@@ -163,6 +163,25 @@ SUITES = {
     },
 }
 
+# The "main table empty, leftovers not" layout (right after a reserve that started a resize, or
+# after removals emptied the main table) in every harness family: three independent seeds
+# (r6_C11, r6_C14, r7_C12) lived in exactly this phase.
+_MAIN_EMPTY_QUICK = {
+    "C06": ("km", ["dr_remove__s8m0_4a"]),
+    "C08": ("km", ["it_iter_mut__s8m0_4a", "it_into_iter__s8m0_4a_j1", "it_keys_values__s8m0_4a"]),
+    "C09": ("km", ["rt_drain_filter__s8m0_4a_m01_j1"]),
+    "C10": ("km", ["cap_shrink_to__s8m0_4a", "cap_shrink_to_fit__s8m0_4a"]),
+    "C14": ("km", ["eq_same__s8m0_4a__u2"]),
+    "C16": ("km-serde", ["sd_ser_map__s8m0_4a"]),
+}
+for _p, (_cfg, _hs) in _MAIN_EMPTY_QUICK.items():
+    for _c, _l in SUITES[_p]["quick"]:
+        if _c == _cfg:
+            _l.extend(h for h in _hs if h not in _l)
+            break
+    else:
+        raise AssertionError("no %s list in the quick tier of %s" % (_cfg, _p))
+
 PROPS = sorted(SUITES)
 
 
